@@ -32,6 +32,13 @@ def cases(tier, rng):
         if P in body:
             out.append((single_query_case(progs.small_program(OR(body, AND(C("e", X), PRINT(atom("[%s]"), X), NL))), [atom("a"), var(0, "$Q")], 8), "small-in-or"))
             out.append((hist(progs.small_program(AND(C("n", Y), body)), [build(0, [atom("a"), var(0, "$Q")]), "(solve-all 0)"]), "small-solve-all"))
+    # output of alternatives that a cut must (or must not) discard
+    for body in progs.small_bodies(progs.alphabet(allow_not=False, allow_print=False), 2):
+        if CUT in body:
+            for wrap in (lambda b: OR(AND(PRINT(atom("a;")), b, PRINT(atom("c;")), FAIL), PRINT(atom("b;"))),
+                         lambda b: OR(AND(b, PRINT(atom("c;"))), PRINT(atom("b;"))),
+                         lambda b: AND(C("n", Y), OR(AND(PRINT(atom("%s;"), Y), b, FAIL), PRINT(atom("b;"))))):
+                out.append((single_query_case(progs.small_program(wrap(body)), [atom("a"), var(0, "$Q")], 6), "cut-discards-output"))
     n = 500 if tier == "quick" else 10000
     out += histgen.random_cases(rng, n, dict(), must="(bip s112.114.105.110.116", solve_mix=False)
     return out
@@ -39,7 +46,7 @@ def cases(tier, rng):
 RULE = ("(a) print with 12 format strings (no / one / several / adjacent / trailing %s markers, a lone %, %S) x 5 argument lists "
         "(none, fewer, equal, more arguments than markers; lists and complex terms), and print / nl / print_list of values bound "
         "through variable chains; (b) all bodies of 1-3 goals over a 10-goal alphabet that contain a print (quick: half), also "
-        "under a disjunction and below a multi-answer goal through solve_all; (c) random programs containing print, with cut, "
+        "under a disjunction and below a multi-answer goal through solve_all; (c) disjunctions whose first alternative prints, cuts and then fails or succeeds, followed by an alternative that prints; (d) random programs containing print, with cut, "
         "not, disjunctions. Oracle: the text written during each request equals what the reference search writes between the "
         "corresponding answers (so every retry prints again, nothing is printed twice or out of order), and nothing is written "
         "after exhaustion. Printed arguments are ground or bound. Non-trivial = output is written during at least two requests.")
